@@ -132,6 +132,7 @@ type inst struct {
 	rel       string
 	atomicPkg string // local name of sync/atomic ("" if not imported)
 	changed   bool
+	locksOnly bool // inside a sync.Cond waiter: only PreLock insertions
 }
 
 func instrumentFile(path, rel string) ([]byte, error) {
@@ -204,13 +205,22 @@ func instrumentFile(path, rel string) ([]byte, error) {
 	return res, nil
 }
 
-// funcBody instruments one function body unless it is a sync.Cond waiter.
+// funcBody instruments one function body. A sync.Cond waiter only gets the
+// scheduling point in front of its Lock calls (where it does not hold L yet):
+// it must never park while holding a Cond's L.
 func (in *inst) funcBody(body *ast.BlockStmt) {
 	if isCondWaiter(body) {
 		nSkippedFuncs++
+		saved := in.locksOnly
+		in.locksOnly = true
+		in.block(&body.List)
+		in.locksOnly = saved
 		return
 	}
+	saved := in.locksOnly
+	in.locksOnly = false
 	in.block(&body.List)
+	in.locksOnly = saved
 }
 
 // isCondWaiter: the function's own statements (not nested func literals) call
@@ -276,8 +286,12 @@ func (in *inst) block(list *[]ast.Stmt) {
 		// 2. what to insert before this statement
 		if recv, read, ok := lockCall(st); ok {
 			out = append(out, in.preLockStmt(recv, read, in.site(st)))
-		} else if in.needsYield(st) {
-			out = append(out, in.yieldStmt(in.site(st)))
+		} else if !in.locksOnly && in.needsYield(st) {
+			site := in.site(st)
+			if _, isSel := st.(*ast.SelectStmt); isSel {
+				site += "#select" // a task parked here may already have armed a timer for this select
+			}
+			out = append(out, in.yieldStmt(site))
 		}
 		out = append(out, st)
 	}
@@ -349,6 +363,9 @@ func (in *inst) nested(st ast.Stmt) {
 		for _, c := range s.Body.List {
 			cc := c.(*ast.CommClause)
 			in.block(&cc.Body)
+			if in.locksOnly {
+				continue
+			}
 			// post-wake point: first statement of every case body
 			cc.Body = append([]ast.Stmt{in.yieldStmt(in.site(cc) + "#case")}, cc.Body...)
 		}
